@@ -119,9 +119,11 @@ def run(ctx: core.Ctx):
     for k in range(ctx.budget(25, 250)):
         n = rng.choice([8, 12, 24, 36, 72])
         ng = rng.choice([1, 2, 3, 4, 6, 12, 36])
+        if k < 6:      # many groups (labels 10.. sort differently as strings and as numbers) on a long axis, always present
+            n, ng = (144, 12) if k % 2 == 0 else (180, 36)
         ng = min(ng, n // 2)
         times = pd.date_range("2000-01-01", periods=n, freq="10D")
-        layout = rng.choice(["interleaved", "blocked", "random"])
+        layout = rng.choice(["interleaved", "blocked", "random"]) if k >= 6 else "interleaved"
         if layout == "interleaved":
             ids = [i % ng for i in range(n)]
         elif layout == "blocked":
@@ -132,8 +134,8 @@ def run(ctx: core.Ctx):
         data = np.array([[[float(rng.choice([0, 0, rng.randint(1, 300)])) for _ in range(1)] for _ in range(2)] for _ in range(n)], dtype="float32")
         data[rng.randrange(n), 0, 0] = -9999.0
         da = xr.DataArray(data, dims=("time", "y", "x"), coords={"time": times}, attrs={"nodata": -9999.0})
-        b = times[rng.randrange(0, n // 3 + 1)] if rng.random() < 0.5 else None
-        e = times[rng.randrange(2 * n // 3, n)] if rng.random() < 0.5 else None
+        b = times[rng.randrange(0, n // 3 + 1)] if (rng.random() < 0.5 or k < 6) else None
+        e = times[rng.randrange(2 * n // 3, n)] if (rng.random() < 0.5 or k < 6) else None
         kw = {}
         if b is not None:
             kw["calibration_begin"] = str(b.date())
@@ -144,6 +146,8 @@ def run(ctx: core.Ctx):
         rng.shuffle(perm)
         spellings = {
             "ints": ids,
+            "ints from 1": [v + 1 for v in ids],
+            "floats": [float(v) for v in ids],
             "strings": [str(v + 9) for v in ids],                # '9','10',...: '10' < '9' lexicographically
             "permuted": [perm[v] for v in ids],
             "letters": ["g" + chr(97 + (v % 26)) + str(v // 26) for v in ids],
